@@ -210,7 +210,8 @@ func NewReplay(trace []Decision, strict bool) *replayDecider {
 }
 
 func (r *replayDecider) Pick(w *World, opts []Option) (int, int) {
-	q := r.byAnchor[opts[0].Anchor]
+	anchor := opts[0].AnchorStr()
+	q := r.byAnchor[anchor]
 	if len(q) == 0 {
 		return 0, 0
 	}
@@ -223,7 +224,7 @@ func (r *replayDecider) Pick(w *World, opts []Option) (int, int) {
 		}
 		return 0, 0
 	}
-	r.byAnchor[opts[0].Anchor] = q[1:]
+	r.byAnchor[anchor] = q[1:]
 	for i, o := range opts {
 		if o.Key == d.Key {
 			if o.NParam > 0 && d.Param >= o.NParam {
